@@ -690,10 +690,11 @@ def run_displacement_case(ctx, am, i):
         u *= (rng.uniform(0.05, 0.9, n) * rcap / np.linalg.norm(u, axis=1))[:, None]
     elif field == 'homogeneous':
         F = C.gen_F(rng, C.FCLASSES[(i // 15) % 5])
-        t = rng.normal(size=3)
-        t *= rng.uniform(0.1, 0.5) * rcap / np.linalg.norm(t)       # a common shift, so that atoms leave the deformed cell
-        u = pos0 @ F.T - pos0 + t
         v1, o1 = v0 @ F.T, F @ o0
+        # a common shift of 5-20 % of the cell along every cell vector (mostly downwards: the lowest
+        # layer sits just above the face), so that atoms certainly leave the deformed cell
+        t = (rng.uniform(0.05, 0.2, 3) * np.where(rng.random(3) < 0.75, -1.0, 1.0)) @ v1
+        u = pos0 @ F.T - pos0 + t
     elif field == 'slip':
         sl = C.gen_slip(rng, cry, i % 3, C.SCLASSES[(i // 3) % 4], pbc, 0.8 * rcap)
         u = np.where(sl['upper'][:, None], sl['s'], 0.0)
@@ -702,6 +703,8 @@ def run_displacement_case(ctx, am, i):
     pos1 = C.wrap(pos0 + u, v1, o1, pbc)                       # the displaced atoms are put back into their cell
     nwrapped = int((np.abs(pos1 - pos0 - u).max(axis=1) > 1e-6).sum())
     rec.count('displacement:atoms-crossing-a-boundary', nwrapped)
+    if field == 'homogeneous' and ref is not None and nwrapped:
+        rec.count(f'displacement:cases-crossing-a-deformed-cell:{ref}')
     rec.case(('displacement', struct, orient, field, 'pbc%d%d%d' % pbc, str(ref)), nontrivial=field != 'zero',
              fp=fingerprint(pos0, u, v0))
     rec.count(f'class:displacement:ref={ref}')
@@ -836,6 +839,8 @@ def run(ctx):
     rec.floor('displacement:rows-imposed-checked', f(3000))
     rec.floor('displacement:atoms-crossing-a-boundary', f(300))
     rec.floor('monitor_calls:displacement', f(150))
+    rec.floor('displacement:cases-crossing-a-deformed-cell:final', 2)
+    rec.floor('displacement:cases-crossing-a-deformed-cell:initial', 2)
     rec.floor('monitor:displacement:rows', f(5000))
     for v in VARIANTS:
         rec.floor(f'invariance:strain:{v}', f(15))
